@@ -165,6 +165,20 @@ class Sidecar:
         (self.lemmas if is_lemma else self.contracts)[con.key] = con
 
 
+def _bool_consts(f):
+    out, todo, seen = [], [f], set()
+    while todo:
+        x = todo.pop()
+        if x.get_id() in seen:
+            continue
+        seen.add(x.get_id())
+        if z3.is_const(x) and z3.is_bool(x) and x.decl().kind() == z3.Z3_OP_UNINTERPRETED:
+            out.append(x)
+        elif z3.is_app(x):
+            todo.extend(x.children())
+    return out
+
+
 class Engine(Core, Expr, Calls, Builtins, Stmts):
     RECORDS: Dict[str, list] = {}
 
@@ -530,6 +544,13 @@ class Engine(Core, Expr, Calls, Builtins, Stmts):
             else:
                 ob.verdict = 'unproved'
                 ob.reason = f'{why}; /usr/bin/z3: {r2} {why2}'
+        if ob.verdict in ('refuted', 'unproved'):
+            # a path that went through a repository class / function which has no contract (and could not be followed): the
+            # counter-model ranges over behaviours that callee may not have, so it is no refutation - the callee needs a contract
+            need = sorted({str(a)[len('needs_contract!'):] for f in ob.pc if z3.is_expr(f) for a in _bool_consts(f) if str(a).startswith('needs_contract!')})
+            if need:
+                ob.verdict = 'undecided'
+                ob.reason = f'needs contract: the path calls {", ".join(need)} (defined in the repository, not under contract); was: {ob.reason}'
         ob.time_s = time.time() - t0
         return ob
 
